@@ -90,7 +90,9 @@ def check_from_str(inst, V, ctx, body, feature, okv):
                 order.append((len(gs), trues[0], v))
             elif not trues:
                 if not is_fail(val, okv):
-                    bad('reject', 'a string equal to no tested constant yields %s, required %s' % (show(val), 'None' if okv == 'Some' else 'Err(())')); return None
+                    # positive evidence only for a decided value (Some(..) / Ok(..) of something); a call the rules cannot read is not a refutation
+                    bad('reject', 'a string equal to no tested constant yields %s, required %s' % (show(val), 'None' if okv == 'Some' else 'Err(())'),
+                        'refuted' if val[0] == 'agg' else 'unrecognised'); return None
                 fail_seen = True
             else:
                 bad('shape', 'a path requires the argument to equal two constants', 'unrecognised'); return None
@@ -143,7 +145,7 @@ def check_from_str(inst, V, ctx, body, feature, okv):
             val = S.path_return(body, path)
             if draws == [('draw', 'None')] and not eqs:
                 if not is_fail(val, okv):
-                    bad('reject', 'after the whole table was scanned without a match the function returns %s' % show(val)); return None
+                    bad('reject', 'after the whole table was scanned without a match the function returns %s' % show(val), 'refuted' if val[0] == 'agg' else 'unrecognised'); return None
                 fail_seen = True
             elif draws == [('draw', 'Some')] and len(eqs) == 1 and eqs[0][2] is True:
                 found_val = (val, eqs[0][1])
@@ -154,17 +156,21 @@ def check_from_str(inst, V, ctx, body, feature, okv):
     if draw is None or found_val is None:
         bad('shape', 'no first-match scan found', 'unrecognised'); return None
     src = draw[2]
+    NAME_I, VAR_I = 1, 0
     # element shape: enumerate(iter(&T2)) -> (index, &&str) ; zip(iter(&T3), iter(&T2)) -> (&E, &&str)
     if src[0] == 'enumerate' and src[1][0] == 'tab' and src[1][1][0] == 'T2':
         mode, t2 = 'enum', src[1][1][1]
     elif src[0] == 'zip' and src[1][0] == 'tab' and src[2][0] == 'tab' and src[1][1][0] == 'T3' and src[2][1][0] == 'T2':
         mode, t2, t3 = 'zip', src[2][1][1], src[1][1][1]
+    elif src[0] == 'zip' and src[1][0] == 'tab' and src[2][0] == 'tab' and src[1][1][0] == 'T2' and src[2][1][0] == 'T3':
+        mode, t2, t3 = 'zip', src[1][1][1], src[2][1][1]        # zip(names, variants): the components of the element change places
+        NAME_I, VAR_I = 0, 1
     else:
         bad('shape', 'the scan is not over enumerate(name table) or zip(variant table, name table): %r' % (src,), 'unrecognised'); return None
     val, (ea, eb) = found_val
     # the tested string must be the name component of the drawn element, compared with the argument
     def is_name_component(t):
-        return t[0] == 'field' and t[2] == 1 and V.elem(t[1]) is not None
+        return t[0] == 'field' and t[2] == (NAME_I if mode == 'zip' else 1) and V.elem(t[1]) is not None
     if not ((ea == arg and is_name_component(eb)) or (eb == arg and is_name_component(ea))):
         bad('shape', 'the scan compares %s with %s' % (show(ea), show(eb)), 'unrecognised'); return None
     names_tab = V.F.try_fold(('named', t2))
@@ -193,7 +199,7 @@ def check_from_str(inst, V, ctx, body, feature, okv):
             results[j] = f.at(j)
     else:
         q = peel(V, p)
-        if not (q[0] == 'field' and q[2] == 0 and V.elem(q[1]) is not None):
+        if not (q[0] == 'field' and q[2] == VAR_I and V.elem(q[1]) is not None):
             bad('shape', 'on a match the function returns %s' % show(val), 'unrecognised'); return None
         vt = V.F.try_fold(('named', t3))
         if vt is None or vt[0] != 'array' or len(vt[1]) != N:
@@ -276,7 +282,7 @@ def adaptor_form(inst, V, ctx, body, paths, okv, bad, spec):
     if not ((is_env(a) and elem_ok(b)) or (is_env(b) and elem_ok(a))):
         bad('shape', 'the predicate compares %s with %s, required the argument with the name of the element' % (show(a), show(b)), 'unrecognised'); return False
     if not is_fail(arms['None'], okv):
-        bad('reject', 'when no name matches the function returns %s' % show(arms['None'])); return False
+        bad('reject', 'when no name matches the function returns %s' % show(arms['None']), 'refuted' if arms['None'][0] == 'agg' else 'unrecognised'); return False
     names_tab = V.F.try_fold(('named', t2))
     if names_tab is None or names_tab[0] != 'array':
         bad('shape', 'name table does not fold', 'unrecognised'); return False
